@@ -8,8 +8,8 @@ use serde_json::{json, Value};
 use std::panic::{catch_unwind, AssertUnwindSafe};
 
 pub fn check(bytes: &[u8], _ctx: &Ctx) -> Verdict {
-    let mut s = Stream::new(bytes);
-    let built = gen_built(&mut s, &GenCfg::small());
+    let (mut s, mut gs) = crate::stream::split(bytes, 128);
+    let built = gen_built(&mut gs, &GenCfg::small());
     let game = match build_valid("C19", &built.tree) {
         Ok(g) => g,
         Err(v) => return v,
@@ -169,8 +169,8 @@ pub fn check(bytes: &[u8], _ctx: &Ctx) -> Verdict {
 }
 
 pub fn describe(bytes: &[u8]) -> Value {
-    let mut s = Stream::new(bytes);
-    let built = gen_built(&mut s, &GenCfg::small());
+    let (mut s, mut gs) = crate::stream::split(bytes, 128);
+    let built = gen_built(&mut gs, &GenCfg::small());
     let pa = gen_profile(&mut s, &built.info);
     json!({"family": built.family, "game": built.tree.brief(), "first_profile": crate::tree::profile_json(&pa), "note": "second profile and exponent follow in the stream"})
 }
@@ -187,5 +187,6 @@ pub fn prop() -> Prop {
         assumptions: &["positivity demanded only for differences > 1e-6 and p <= 10 (|diff|^p may underflow otherwise)", "p = +inf and NaN are outside the stated domain (0, inf)"],
         post: None,
         watchdog_s: 60,
+        shrink_iters: 3000,
     }
 }
